@@ -132,13 +132,15 @@ def parse_dump(path):
     with open(path) as f:
         for line in f:
             line = line.rstrip("\n")
-            if line.startswith("State "):
+            if line.startswith("State ") or line.startswith("STATE_"):
                 if cur is not None:
                     flush()
                     states.append(cur)
                 cur = {}
                 continue
             if cur is None:
+                continue
+            if line.startswith("\\*") or line.startswith("====") or line.startswith("----"):
                 continue
             m = re.match(r"^/\\ ([A-Za-z_][A-Za-z0-9_]*) = (.*)$", line)
             if m:
